@@ -85,6 +85,9 @@ pub struct Sim {
     last_obs: Option<Obs>,
     pending_crash: Option<u32>,
     pending_fail: Option<u32>,
+    pending_starve: bool,
+    had_restart: bool,
+    had_crash: bool,
     sig_acc: u64,
     /// what kind of disturbance preceded (for attribution of unexpected errors)
     disturbed: Option<&'static str>,
@@ -122,6 +125,9 @@ impl Sim {
             last_obs: None,
             pending_crash: None,
             pending_fail: None,
+            pending_starve: false,
+            had_restart: false,
+            had_crash: false,
             sig_acc: 0xcbf2_9ce4_8422_2325,
             disturbed: None,
             verbose: false,
@@ -144,6 +150,15 @@ impl Sim {
 
     fn finding(&self, i: usize, clause: &str, props: &[&'static str], detail: String) -> Finding {
         Finding { clause: clause.to_string(), props: props.to_vec(), detail, op_index: i }
+    }
+
+    fn disturb(&mut self, what: &'static str) {
+        match what {
+            "restart" => self.had_restart = true,
+            "crash" => self.had_crash = true,
+            _ => {}
+        }
+        self.disturbed = Some(what);
     }
 
     fn sig_mix(&mut self, s: &str) {
@@ -490,6 +505,10 @@ impl Sim {
                 self.pending_fail = Some(*k);
                 None
             }
+            Op::Starve => {
+                self.pending_starve = true;
+                None
+            }
             Op::Clock(c) => {
                 pocket_types::verif_clock::set(*c);
                 self.model.clock = *c;
@@ -513,6 +532,7 @@ impl Sim {
             if !matches!(op, Op::Store(_) | Op::Remove(_) | Op::Vanish(_)) {
                 self.pending_crash = None;
                 self.pending_fail = None;
+                self.pending_starve = false;
             }
         }
         r
@@ -523,18 +543,54 @@ impl Sim {
         let real = self.observe();
         let exp = self.expected();
         let mut result = None;
-        if let Some((k, want, got)) = obs::first_diff(&exp, &real) {
-            let (clause, props) = self.attribute(k, want, got, ctx);
+        let diffs = obs::all_diffs(&exp, &real);
+        if !diffs.is_empty() {
+            let (b, clause, props) = self.attribute_all(&diffs, ctx);
+            let (k, want, got) = &diffs[b];
             result = Some(self.finding(
                 i,
                 &clause,
                 &props,
-                format!("after {}: probe {} shows {} but the model requires {}", ctx.desc, shorten_key(k), got, want),
+                format!("after {}: probe {} shows {} but the model requires {} ({} probes differ)", ctx.desc, shorten_key(k), got, want, diffs.len()),
             ));
         }
         self.log.push(format!("#{i} obs {:016x}", hash_obs(&real)));
         self.last_obs = Some(real);
         result
+    }
+
+    /// Attribute a set of differing probes: the reported probe is the most specific one
+    /// (a lookup / marker / holder probe rather than a count or a battery filter), the
+    /// properties are the union over (up to 16 of) the differing probes.
+    fn attribute_all(&self, diffs: &[(String, String, String)], ctx: &OpCtx) -> (usize, String, Vec<&'static str>) {
+        let rank = |k: &str| -> u32 {
+            match k.split('/').next().unwrap_or("") {
+                "off" | "byid" | "has" => 0,
+                "deladdr" | "delid" | "repl" | "prepl" => 1,
+                "extra" => 2,
+                "count" => 3,
+                _ => 4,
+            }
+        };
+        let mut best = 0usize;
+        for (n, (k, _, _)) in diffs.iter().enumerate() {
+            if rank(k) < rank(&diffs[best].0) {
+                best = n;
+            }
+        }
+        let (clause, mut props) = self.attribute(&diffs[best].0, &diffs[best].1, &diffs[best].2, ctx);
+        for (n, (k, w, g)) in diffs.iter().enumerate().take(16) {
+            if n == best {
+                continue;
+            }
+            let (_, p2) = self.attribute(k, w, g, ctx);
+            for p in p2 {
+                if !props.contains(&p) {
+                    props.push(p);
+                }
+            }
+        }
+        (best, clause, props)
     }
 
     fn attribute(&self, key: &str, want: &str, got: &str, ctx: &OpCtx) -> (String, Vec<&'static str>) {
@@ -691,6 +747,16 @@ impl Sim {
                 props.push(p);
             }
         }
+        // a mismatch in a run that went through a restart / a recovery also speaks for the
+        // statement that the restart / recovery "changes nothing" (latent damage)
+        if matches!(kind, "has" | "byid" | "off" | "bat" | "count" | "delid" | "deladdr") {
+            if self.had_restart && !props.contains(&"C16") {
+                props.push("C16");
+            }
+            if self.had_crash && !props.contains(&"C13") {
+                props.push("C13");
+            }
+        }
         (clause.to_string(), props)
     }
 
@@ -742,7 +808,7 @@ impl Sim {
                         ));
                     }
                     self.last_obs = Some(after);
-                    self.disturbed = Some("failpoint");
+                    self.disturb("failpoint");
                     k_enum += 1;
                     continue;
                 }
@@ -750,13 +816,12 @@ impl Sim {
                     return Some(self.finding(i, "store-panicked", &["C12", "C04"], format!("store of {} panicked with a fail-point armed: {p}", short(&e.id))));
                 }
                 (_, Some(name)) => {
-                    // the fail-point fired but the store did not report the injected error
-                    return Some(self.finding(
-                        i,
-                        "injected-error-swallowed",
-                        &["C12"],
-                        format!("fail-point {name} fired inside store of {} but the call returned {}", short(&e.id), out.label()),
-                    ));
+                    // the fail-point fired but the call did not report the injected error: whatever it
+                    // returned is judged like any other result (an `Ok` must then have its full effect)
+                    self.stats.inc(&format!("fault/failpoint_not_reported/{name}"));
+                    self.log.push(format!("#{i} store {} fail-point {name} fired, call returned {}", short(&e.id), out.label()));
+                    self.disturb("failpoint");
+                    return self.after_store(i, e, &ev, out, map_len_before, points, vec![]);
                 }
                 (_, None) => {
                     // no k-th fail-point call: this was the ordinary execution
@@ -767,6 +832,40 @@ impl Sim {
 
         // --- ordinary execution (crash mode: with every kill point snapshotted)
         let crash = self.cfg.mode == Mode::Crash || self.pending_crash.is_some();
+        let starve = std::mem::take(&mut self.pending_starve) && !crash;
+        if starve {
+            // the reader table is exhausted while this store runs
+            let before = self.last_obs.clone().unwrap_or_else(|| self.observe());
+            let (out, points) = {
+                let store = self.store.as_ref().unwrap();
+                let held = exhaust_readers(store);
+                self.hooks_begin(false, None);
+                let out = real::store_event(store, &ev);
+                let (points, _, _, _) = self.hooks_end();
+                drop(held);
+                (out, points)
+            };
+            self.stats.inc("fault/readers_exhausted");
+            if let StoreOutcome::Other(err) = &out {
+                // an engine failure: the call must have changed nothing
+                self.stats.inc("fault/readers_exhausted_store_failed");
+                self.log.push(format!("#{i} store {} starved -> {}", short(&e.id), out.label()));
+                let after = self.observe();
+                let diffs = common(obs::diff_all(&before, &after, &[]));
+                if let Some((k, a, b)) = diffs.first() {
+                    return Some(self.finding(
+                        i,
+                        "failed-store-changed-state",
+                        &["C12"],
+                        format!("store of {} failed with {err} (reader table exhausted), yet probe {} changed: {} -> {}", short(&e.id), shorten_key(k), a, b),
+                    ));
+                }
+                self.last_obs = Some(after);
+                self.disturb("failpoint");
+                return None;
+            }
+            return self.after_store(i, e, &ev, out, map_len_before, points, vec![]);
+        }
         self.hooks_begin(crash, None);
         let out = real::store_event(self.store.as_ref().unwrap(), &ev);
         let (points, snaps, _, _) = self.hooks_end();
@@ -998,9 +1097,25 @@ impl Sim {
     fn do_remove(&mut self, i: usize, id: &B32) -> Option<Finding> {
         let before_model = self.model.clone();
         let crash = self.cfg.mode == Mode::Crash || self.pending_crash.is_some();
-        self.hooks_begin(crash, None);
-        let r = real::catch(|| self.store.as_ref().unwrap().remove_event(pocket_types::Id::from_bytes(*id)));
-        let (points, snaps, _, _) = self.hooks_end();
+        let fail_k = self.pending_fail.take();
+        let starve = std::mem::take(&mut self.pending_starve) && !crash;
+        let faulted = fail_k.is_some() || starve;
+        let before_obs = if faulted { Some(self.last_obs.clone().unwrap_or_else(|| self.observe())) } else { None };
+        let (r, points, snaps, fired) = {
+            let store = self.store.as_ref().unwrap();
+            let held = if starve { exhaust_readers(store) } else { vec![] };
+            self.hooks_begin(crash, fail_k);
+            let r = real::catch(|| store.remove_event(pocket_types::Id::from_bytes(*id)));
+            let (points, snaps, fired, _) = self.hooks_end();
+            drop(held);
+            (r, points, snaps, fired)
+        };
+        if starve {
+            self.stats.inc("fault/readers_exhausted");
+        }
+        if let Some(n) = fired {
+            self.stats.inc(&format!("fault/failpoint/{n}"));
+        }
         self.stats.add("points_crossed", points.len() as u64);
         let was = self.model.retrievable.contains(id);
         self.sig_mix(&format!("remove:{}:{}", was, self.model.retrievable.len()));
@@ -1011,6 +1126,18 @@ impl Sim {
             }
             Ok(Err(e)) => {
                 self.cleanup_snaps(&snaps);
+                if faulted {
+                    // a removal that failed because of an injected fault must have removed nothing
+                    self.log.push(format!("#{i} remove {} failed under an injected fault: {}", short(id), real::err_name(&e.inner)));
+                    let after = self.observe();
+                    let diffs = common(obs::diff_all(before_obs.as_ref().unwrap(), &after, &[]));
+                    if let Some((k, a, b)) = diffs.first() {
+                        return Some(self.finding(i, "failed-remove-changed-state", &["C18"], format!("remove_event({}) returned an error, yet probe {} changed: {} -> {}", short(id), shorten_key(k), a, b)));
+                    }
+                    self.last_obs = Some(after);
+                    self.disturb("failpoint");
+                    return None;
+                }
                 return Some(self.finding(i, "remove-failed", &["C18"], format!("remove_event({}) failed: {}", short(id), real::err_name(&e.inner))));
             }
             Ok(Ok(())) => {}
@@ -1044,9 +1171,24 @@ impl Sim {
         let targets = self.model.vanish_targets(pk);
         let ev = real::vanish_event(pk);
         let crash = self.cfg.mode == Mode::Crash || self.pending_crash.is_some();
-        self.hooks_begin(crash, None);
-        let r = real::catch(|| self.store.as_ref().unwrap().vanish(&ev));
-        let (points, snaps, _, _) = self.hooks_end();
+        let fail_k = self.pending_fail.take();
+        let starve = std::mem::take(&mut self.pending_starve) && !crash;
+        let faulted = fail_k.is_some() || starve;
+        let (r, points, snaps, fired) = {
+            let store = self.store.as_ref().unwrap();
+            let held = if starve { exhaust_readers(store) } else { vec![] };
+            self.hooks_begin(crash, fail_k);
+            let r = real::catch(|| store.vanish(&ev));
+            let (points, snaps, fired, _) = self.hooks_end();
+            drop(held);
+            (r, points, snaps, fired)
+        };
+        if starve {
+            self.stats.inc("fault/readers_exhausted");
+        }
+        if let Some(n) = fired {
+            self.stats.inc(&format!("fault/failpoint/{n}"));
+        }
         self.stats.add("points_crossed", points.len() as u64);
         self.sig_mix(&format!("vanish:{}:{}", targets.len(), self.model.retrievable.len()));
         match r {
@@ -1056,6 +1198,26 @@ impl Sim {
             }
             Ok(Err(e)) => {
                 self.cleanup_snaps(&snaps);
+                if faulted {
+                    // a vanish interrupted by an injected fault: any subset of its targets may be gone,
+                    // nothing else may have changed
+                    self.log.push(format!("#{i} vanish {} failed under an injected fault: {}", short(pk), real::err_name(&e.inner)));
+                    self.stats.inc("fault/vanish_interrupted");
+                    let store = self.store.as_ref().unwrap();
+                    let mut gone = 0;
+                    for t in &targets {
+                        let still = store.has_event(pocket_types::Id::from_bytes(*t)).unwrap_or(true);
+                        if !still {
+                            let _ = self.model.retrievable.remove(t);
+                            let _ = self.model.ever_removed.insert(*t);
+                            gone += 1;
+                        }
+                    }
+                    self.stats.add("vanish/targets", gone);
+                    self.disturb("failpoint");
+                    let ctx = OpCtx { kind: CtxKind::Remove, event: None, desc: format!("interrupted vanish of {}", short(pk)), also: &[] };
+                    return self.check_against_model(i, &ctx);
+                }
                 return Some(self.finding(i, "vanish-failed", &["C18"], format!("vanish({}) failed: {}", short(pk), real::err_name(&e.inner))));
             }
             Ok(Ok(())) => {}
@@ -1222,14 +1384,15 @@ impl Sim {
         if let Err(f) = self.open_store(i) {
             return Some(f);
         }
-        self.disturbed = Some("restart");
+        self.disturb("restart");
         self.log.push(format!("#{i} reopen {:?}", kind));
         self.sig_mix(&format!("reopen:{:?}", kind));
         let after = self.observe();
         let diffs = obs::diff_all(&before, &after, &[]);
-        if let Some((k, a, b)) = diffs.first() {
+        if !diffs.is_empty() {
             let ctx = OpCtx { kind: CtxKind::Restart, event: None, desc: format!("reopen ({:?})", kind), also: &[] };
-            let (clause, props) = self.attribute(k, a, b, &ctx);
+            let (bi, clause, props) = self.attribute_all(&diffs, &ctx);
+            let (k, a, b) = &diffs[bi];
             return Some(self.finding(
                 i,
                 &format!("reopen-changed-{clause}"),
@@ -1262,7 +1425,7 @@ impl Sim {
             Ok(Err(e)) => return Some(self.finding(i, "rebuild-failed", &["C16"], format!("rebuild failed: {}", real::err_name(&e.inner)))),
             Ok(Ok(s)) => self.store = Some(s),
         }
-        self.disturbed = Some("restart");
+        self.disturb("restart");
         self.log.push(format!("#{i} rebuild"));
         self.sig_mix("rebuild");
         // a rebuild starts a new event file: offsets of the old one mean nothing any more
@@ -1315,9 +1478,10 @@ impl Sim {
                 }
             }
         }
-        if let Some((k, a, b)) = diffs.first() {
+        if !diffs.is_empty() {
             let ctx = OpCtx { kind: CtxKind::Restart, event: None, desc: "rebuild".into(), also: &[] };
-            let (clause, props) = self.attribute(k, a, b, &ctx);
+            let (bi, clause, props) = self.attribute_all(&diffs, &ctx);
+            let (k, a, b) = &diffs[bi];
             return Some(self.finding(i, &format!("rebuild-changed-{clause}"), &props, format!("rebuild changed probe {}: {} -> {}", shorten_key(k), a, b)));
         }
         // no bytes of unreferenced events are retained
@@ -1468,7 +1632,7 @@ impl Sim {
             self.dir = dir;
             self.model = m;
             self.stats.inc("fault/crash_adopted");
-            self.disturbed = Some("crash");
+            self.disturb("crash");
             self.log.push(format!("#{i} continue from kill point {}", chosen.unwrap()));
             // plain open (its own kill points were exercised by reopen ops)
             let names = extra_names(self.cfg.extra_tables);
@@ -1663,6 +1827,19 @@ impl Sim {
             None => Ok(if keep { Some(adopted) } else { None }),
         }
     }
+}
+
+/// Take every free slot of LMDB's reader table by opening read transactions through the
+/// public API; they are released when the returned vector is dropped.
+fn exhaust_readers(store: &Store) -> Vec<pocket_db::heed::RoTxn<'_>> {
+    let mut held = vec![];
+    while held.len() < 4096 {
+        match store.read_txn() {
+            Ok(t) => held.push(t),
+            Err(_) => break,
+        }
+    }
+    held
 }
 
 fn fresh_event(a: u64, b: u64, c: u64) -> EvSpec {
